@@ -31,7 +31,7 @@ var c26AtomTable = [][3]string{
 	{"if-true", "", "if true; then echo t; else echo e; fi"},
 	{"if-elif", "", "if false; then echo t; elif true; then echo ei; else echo e; fi"},
 	{"if-else", "", "if false; then echo t; elif false; then echo ei; else echo e; fi"},
-	{"if-false-nobranch", "c", "if false; then echo t; fi"},
+	{"if-false-nobranch", "", "if false; then echo t; fi"},
 	{"if-cond-list", "", "if false; true; then echo t; fi"},
 	{"while-counter", "c", "i=0; while [ $i -lt 3 ]; do i=$((i+1)); echo w$i; done"},
 	{"until-counter", "", "i=0; until [ $i -ge 2 ]; do i=$((i+1)); echo u$i; done"},
@@ -46,7 +46,7 @@ var c26AtomTable = [][3]string{
 	{"case-default", "", "case z in a) echo A;; b) echo B;; *) echo D;; esac"},
 	{"case-nomatch", "", "case z in a) echo A;; esac"},
 	{"case-fallthrough", "c", "case ab in a*) echo 1;& b) echo 2;; c) echo 3;; esac"},
-	{"case-continue-match", "c", "case ab in a*) echo 1;;& *b) echo 2;;& c) echo 3;; *) echo 4;; esac"},
+	{"case-continue-match", "", "case ab in a*) echo 1;;& *b) echo 2;;& c) echo 3;; *) echo 4;; esac"},
 	{"case-fall-last", "", "case a in a) echo 1;& esac"},
 	{"case-patterns", "", "for v in b 7 ab 'a b' ''; do case $v in [a-c]) echo r;; [!a-z]) echo n;; a?|x) echo q;; 'a b') echo s;; '') echo e;; esac; done"},
 	{"case-var-pattern", "", "x='a*'; case abc in $x) echo glob;; esac; case abc in \"$x\") echo lit;; *) echo nolit;; esac"},
@@ -71,7 +71,7 @@ var c26AtomTable = [][3]string{
 	{"return-toplevel-then", "", "return 2; echo after$?"},
 	// --- local variables
 	{"local-shadow", "c", "x=g; f() { local x=l; echo $x; }; f; echo $x"},
-	{"local-novalue", "c", "x=g; f() { local x; echo \"[$x]\"; x=l; }; f; echo $x"},
+	{"local-novalue", "", "x=g; f() { local x; echo \"[$x]\"; x=l; }; f; echo $x"},
 	{"local-unset", "c", "x=g; f() { local x=l; unset x; echo \"[$x]\"; }; f; echo $x"},
 	{"local-unset-assign", "", "x=g; f() { local x=l; unset x; x=n; }; f; echo $x"},
 	{"local-dynamic", "", "x=g; g() { echo $x; x=m; }; f() { local x=l; g; echo $x; }; f; echo $x"},
@@ -83,7 +83,7 @@ var c26AtomTable = [][3]string{
 	// --- subshells
 	{"sub-exit-3", "c", "( exit 3 )"},
 	{"sub-exit-mid", "", "( echo in; exit 2; echo no )"},
-	{"sub-isolation", "c", "x=1; ( x=2; echo $x ); echo $x"},
+	{"sub-isolation", "", "x=1; ( x=2; echo $x ); echo $x"},
 	{"sub-false", "", "( true; false )"},
 	{"sub-nested", "", "( ( exit 4 ); echo $? )"},
 	{"sub-fn-isolation", "", "( f() { echo subf; }; f ); f"},
@@ -111,7 +111,7 @@ var c26AtomTable = [][3]string{
 	{"pipe-read-loop", "c", "echo a | while read l; do echo \"<$l>\"; done"},
 	{"pipe-true-false", "c", "true | false"},
 	{"pipe-false-true", "c", "false | true"},
-	{"not-true", "c", "! true"},
+	{"not-true", "", "! true"},
 	{"not-false", "c", "! false"},
 	{"not-pipe", "", "! true | false"},
 	{"pipestatus", "c", "false | true | (exit 3); echo \"${PIPESTATUS[@]}\""},
@@ -136,7 +136,7 @@ var c26AtomTable = [][3]string{
 	{"hdoc-two", "", "read x <<A; read y <<B\none\nA\ntwo\nB\necho $x$y"},
 	{"hdoc-empty", "", "read l <<EOF\nEOF\necho \"$?<$l>\""},
 	{"hdoc-in-fn", "", "f() { while read l; do echo \"<$l>\"; done <<EOF\nin $1\nEOF\n}; f p"},
-	{"hstr", "c", "read l <<< \"a b\"; echo \"<$l>\""},
+	{"hstr", "", "read l <<< \"a b\"; echo \"<$l>\""},
 	{"hstr-var", "", "x='p  q'; read l <<< $x; echo \"<$l>\"; read l <<< \"$x\"; echo \"<$l>\""},
 	{"hstr-loop", "", "while read l; do echo \"<$l>\"; done <<< l1"},
 	{"hstr-cs", "", "read l <<< $(echo a; echo b); echo \"<$l>\""},
@@ -161,7 +161,7 @@ var c26AtomTable = [][3]string{
 	{"redir-noclobber-order", "", "echo a > f1 > f2; [ -s f1 ] || echo f1empty; read l < f2; echo $l"},
 	// --- [[ ]]
 	{"dbr-eq", "c", "[[ a == a ]]"},
-	{"dbr-ne", "c", "[[ a != a ]]"},
+	{"dbr-ne", "", "[[ a != a ]]"},
 	{"dbr-glob", "", "[[ abc == a* ]] && echo g; [[ abc == \"a*\" ]] || echo q; [[ abc == a?c ]] && echo m"},
 	{"dbr-var-pattern", "", "x='a*'; [[ abc == $x ]] && echo g; [[ abc == \"$x\" ]] || echo q"},
 	{"dbr-regex", "c", "[[ abc =~ ^a(b)c$ ]] && echo ${BASH_REMATCH[0]} ${BASH_REMATCH[1]}"},
@@ -177,7 +177,7 @@ var c26AtomTable = [][3]string{
 	{"dbr-bare-word", "", "[[ a ]] && echo w; [[ \"\" ]] || echo e"},
 	// --- test / [
 	{"test-eq", "c", "[ a = a ]"},
-	{"test-ne", "c", "[ a != a ]"},
+	{"test-ne", "", "[ a != a ]"},
 	{"test-numeric", "", "[ 1 -eq 1 ] && echo eq; [ 1 -gt 2 ] || echo gt; [ 1 -lt 2 -a 2 -lt 3 ] && echo and"},
 	{"test-strings", "", "[ -n \"\" ] || echo n; [ -z \"\" ] && echo z; [ a ] && echo w; [ \"\" ] || echo e; [ ] || echo none"},
 	{"test-not", "", "[ ! a ] || echo na; [ ! \"\" ] && echo ne; [ ! a = b ] && echo neq"},
@@ -194,7 +194,7 @@ var c26AtomTable = [][3]string{
 	{"arr-basic", "c", "a=(p q r); echo ${a[1]} ${#a[@]} ${a[@]} $a"},
 	{"arr-star", "", "a=(p 'q r'); echo \"${a[*]}\"; for v in \"${a[@]}\"; do echo \"<$v>\"; done; for v in ${a[@]}; do echo \"{$v}\"; done"},
 	{"arr-sparse", "", "a=(p q); a[5]=z; echo ${!a[@]} ${#a[@]} ${a[-1]}"},
-	{"arr-append", "c", "a=(p); a+=(q r); a[1]+=s; echo ${a[@]}"},
+	{"arr-append", "", "a=(p); a+=(q r); a[1]+=s; echo ${a[@]}"},
 	{"arr-unset-elem", "", "a=(p q r); unset 'a[1]'; echo ${a[@]} ${#a[@]} ${!a[@]}"},
 	{"arr-empty", "", "a=(); echo ${#a[@]} \"[${a[@]}]\"; for v in \"${a[@]}\"; do echo never; done"},
 	{"arr-slice", "", "a=(p q r s); echo \"${a[@]:1:2}\" ${a[@]:2}"},
@@ -265,7 +265,7 @@ var c26AtomTable = [][3]string{
 	{"break-neg", "", "break -1"},
 	{"break-nonnumeric", "", "break x"},
 	{"break-nested-2", "c", "for i in 1 2; do for j in a b; do echo $i$j; break 2; done; echo o$i; done"},
-	{"continue-nested-2", "c", "for i in 1 2; do for j in a b; do echo $i$j; continue 2; done; echo o$i; done"},
+	{"continue-nested-2", "", "for i in 1 2; do for j in a b; do echo $i$j; continue 2; done; echo o$i; done"},
 	{"break-nested-1", "", "for i in 1 2; do for j in a b; do echo $i$j; break; done; echo o$i; done"},
 	{"continue-nested-1", "", "for i in 1 2; do for j in a b; do echo $i$j; continue; echo no; done; echo o$i; done"},
 	{"break-out-of-range", "", "for i in 1 2; do for j in a b; do echo $i$j; break 3; done; echo o$i; done; echo $?"},
@@ -286,7 +286,6 @@ var c26AtomTable = [][3]string{
 	{"set-trap-err", "sc", "trap 'echo ERR:$?' ERR"},
 	{"set-e-trap-err", "s", "set -e; trap 'echo ERR:$?' ERR"},
 	{"set-e-trap-exit", "s", "set -e; trap 'echo EXIT:$?' EXIT"},
-	{"set-errtrace-trap-err", "s", "set -E; trap 'echo ERR:$?' ERR"},
 	{"set-false-last", "s", "false"},
 	{"set-vars", "s", "x=X; a=(A B); l=L"},
 }
@@ -406,7 +405,7 @@ func c26ApplyB(bi int, s1, s2 c26Stmt) c26Stmt {
 // ends with `echo end:$?`, so that the status left by the composition is part
 // of the output as well as whether execution got that far.
 func c26GenPrograms(thorough bool, emit func(desc, src string)) {
-	var all, core, setup []c26Atom
+	var all, core, setup, qsetup, csetup []c26Atom
 	for _, a := range c26Atoms {
 		all = append(all, a)
 		if a.Core {
@@ -414,6 +413,13 @@ func c26GenPrograms(thorough bool, emit func(desc, src string)) {
 		}
 		if a.Setup {
 			setup = append(setup, a)
+			switch a.Name {
+			case "set-e", "set-pipefail", "set-trap-exit", "set-trap-err":
+				qsetup = append(qsetup, a)
+			}
+			if a.Core {
+				csetup = append(csetup, a)
+			}
 		}
 	}
 	out := func(pre string, preDesc string, s c26Stmt) {
@@ -423,23 +429,28 @@ func c26GenPrograms(thorough bool, emit func(desc, src string)) {
 			emit(s.desc, s.src+c26Suffix)
 		}
 	}
-	// (1) one atom in every unary context, alone and after each setup atom
+	// (1) one atom in every unary context, alone and after a setup atom
+	// (quick: set -e, pipefail, EXIT trap, ERR trap; thorough: all setups)
+	s1 := qsetup
+	if thorough {
+		s1 = setup
+	}
 	for _, a := range all {
 		for ui := range c26Unary {
 			s := c26ApplyU(ui, c26FromAtom(a))
 			out("", "", s)
-			for _, st := range setup {
+			for _, st := range s1 {
 				out(st.Src, st.Name, s)
 			}
 		}
 	}
-	// (2) two atoms in every binary context
-	pairAtoms := core
-	if thorough {
-		pairAtoms = all
-	}
-	for _, a := range pairAtoms {
-		for _, b := range pairAtoms {
+	// (2) two atoms in every binary context: quick core x core; thorough
+	// all x core and core x all
+	for _, a := range all {
+		for _, b := range all {
+			if !(a.Core && b.Core) && !(thorough && (a.Core || b.Core)) {
+				continue
+			}
 			for bi := range c26Binary {
 				out("", "", c26ApplyB(bi, c26FromAtom(a), c26FromAtom(b)))
 			}
@@ -448,8 +459,8 @@ func c26GenPrograms(thorough bool, emit func(desc, src string)) {
 	if !thorough {
 		return
 	}
-	// (3) three atoms: setup; binary(core, core)
-	for _, st := range setup {
+	// (3) three atoms: core setup; binary(core, core)
+	for _, st := range csetup {
 		for _, a := range core {
 			for _, b := range core {
 				for bi := range c26Binary {
@@ -458,7 +469,7 @@ func c26GenPrograms(thorough bool, emit func(desc, src string)) {
 			}
 		}
 	}
-	// (4) nested unary contexts around one atom, alone and after core setups
+	// (4) two nested unary contexts around one atom
 	for _, a := range all {
 		for u1 := range c26Unary {
 			if c26Unary[u1].Name == "plain" {
@@ -469,19 +480,13 @@ func c26GenPrograms(thorough bool, emit func(desc, src string)) {
 					// while-cond twice would reset the shared counter n forever
 					continue
 				}
-				s := c26ApplyU(u1, c26ApplyU(u2, c26FromAtom(a)))
-				out("", "", s)
-				for _, st := range setup {
-					if st.Core {
-						out(st.Src, st.Name, s)
-					}
-				}
+				out("", "", c26ApplyU(u1, c26ApplyU(u2, c26FromAtom(a))))
 			}
 		}
 	}
-	// (5) two setup atoms then one atom in every unary context
-	for _, s1 := range setup {
-		for _, s2 := range setup {
+	// (5) two of the quick setup atoms, then one core atom in every unary context
+	for _, s1 := range qsetup {
+		for _, s2 := range qsetup {
 			if s1.Name == s2.Name {
 				continue
 			}
